@@ -7,18 +7,20 @@ EXTENDS Integers, Sequences, FiniteSets, TLC
 CONSTANTS NP        \* number of proxies mailed
 Proxies == 1..NP
 (* --algorithm mailbox {
-  variables tat = [p \in Proxies |-> "none"],      \* task_and_tag: "both" (task|3), "pool" (=pool_bit, empty), "mail" (=mailbox_bit, empty)
+  variables tat = [p \in Proxies |-> IF p = 1 THEN "both" ELSE "none"],      \* task_and_tag: "both" (task|3), "pool" (=pool_bit, empty), "mail" (=mailbox_bit, empty)
             nxt = [p \in Proxies |-> 0],           \* next_in_mailbox
             first = 0, last = 0,                   \* my_first; my_last: 0 means &my_first, p means &p.next_in_mailbox
             pool = {}, freed = [p \in Proxies |-> 0], gotTask = [p \in Proxies |-> 0], uaf = FALSE;
   process (S = "S")
     variables i = 1, link = 0;
   {
+    \* (the proxy is initialised - task pointer with both location bits - while it is still private, i.e. before the step that starts its push; the steps without
+    \* a shared access are merged into the preceding access so that every step of the model is one access of the code: this is what the replay compares)
     s0: while (i <= NP) {
-          tat[i] := "both"; nxt[i] := 0;                    \* proxy init (private)
-      s1: link := last; last := i;                          \* my_last.exchange(&t->next_in_mailbox)
+      s1: nxt[i] := 0; link := last; last := i;             \* next_in_mailbox.store(nullptr); my_last.exchange(&t->next_in_mailbox)
       s2: if (link = 0) { first := i } else { nxt[link] := i };   \* link->store(t, release)
-      s3: pool := pool \cup {i};                             \* spawn proxy into own pool
+          pool := pool \cup {i};                             \* spawn proxy into own pool
+          if (i < NP) { tat[i + 1] := "both" };
           i := i + 1;
         }
   }
@@ -67,7 +69,7 @@ vars == << pc, tat, nxt, first, last, pool, freed, gotTask, uaf, i, link, n,
 ProcSet == {"S"} \cup {"R"} \cup {"P"}
 
 Init == (* Global variables *)
-        /\ tat = [p \in Proxies |-> "none"]
+        /\ tat = [p \in Proxies |-> IF p = 1 THEN "both" ELSE "none"]
         /\ nxt = [p \in Proxies |-> 0]
         /\ first = 0
         /\ last = 0
@@ -93,19 +95,17 @@ Init == (* Global variables *)
 
 s0 == /\ pc["S"] = "s0"
       /\ IF i <= NP
-            THEN /\ tat' = [tat EXCEPT ![i] = "both"]
-                 /\ nxt' = [nxt EXCEPT ![i] = 0]
-                 /\ pc' = [pc EXCEPT !["S"] = "s1"]
+            THEN /\ pc' = [pc EXCEPT !["S"] = "s1"]
             ELSE /\ pc' = [pc EXCEPT !["S"] = "Done"]
-                 /\ UNCHANGED << tat, nxt >>
-      /\ UNCHANGED << first, last, pool, freed, gotTask, uaf, i, link, n, curr, 
-                      second, t, m, q, t2 >>
+      /\ UNCHANGED << tat, nxt, first, last, pool, freed, gotTask, uaf, i, 
+                      link, n, curr, second, t, m, q, t2 >>
 
 s1 == /\ pc["S"] = "s1"
+      /\ nxt' = [nxt EXCEPT ![i] = 0]
       /\ link' = last
       /\ last' = i
       /\ pc' = [pc EXCEPT !["S"] = "s2"]
-      /\ UNCHANGED << tat, nxt, first, pool, freed, gotTask, uaf, i, n, curr, 
+      /\ UNCHANGED << tat, first, pool, freed, gotTask, uaf, i, n, curr, 
                       second, t, m, q, t2 >>
 
 s2 == /\ pc["S"] = "s2"
@@ -114,18 +114,17 @@ s2 == /\ pc["S"] = "s2"
                  /\ nxt' = nxt
             ELSE /\ nxt' = [nxt EXCEPT ![link] = i]
                  /\ first' = first
-      /\ pc' = [pc EXCEPT !["S"] = "s3"]
-      /\ UNCHANGED << tat, last, pool, freed, gotTask, uaf, i, link, n, curr, 
-                      second, t, m, q, t2 >>
-
-s3 == /\ pc["S"] = "s3"
       /\ pool' = (pool \cup {i})
+      /\ IF i < NP
+            THEN /\ tat' = [tat EXCEPT ![i + 1] = "both"]
+            ELSE /\ TRUE
+                 /\ tat' = tat
       /\ i' = i + 1
       /\ pc' = [pc EXCEPT !["S"] = "s0"]
-      /\ UNCHANGED << tat, nxt, first, last, freed, gotTask, uaf, link, n, 
-                      curr, second, t, m, q, t2 >>
+      /\ UNCHANGED << last, freed, gotTask, uaf, link, n, curr, second, t, m, 
+                      q, t2 >>
 
-S == s0 \/ s1 \/ s2 \/ s3
+S == s0 \/ s1 \/ s2
 
 r0 == /\ pc["R"] = "r0"
       /\ IF n < NP + 1
